@@ -23,3 +23,18 @@ package api
 //@   ensures result1 == RtHasAddr(r)
 //@   ensures result1 ==> result0 != nil && fresh(result0) && *result0 == RtAddr(r)
 //@   ensures !result1 ==> result0 == nil
+
+// ---- node registration (C17): consensus / P2P / TLS / VRF keys unique across nodes ----
+
+//@ import "context"
+//@ import "github.com/oasisprotocol/oasis-core/go/common/crypto/signature"
+//@ import "github.com/oasisprotocol/oasis-core/go/common/node"
+//@ ghost func KeyHolder(l NodeLookup, ctx context.Context, k signature.PublicKey) *node.Node { return ufr[*node.Node]("nodeBySubKey.0", l, ctx, k) }
+
+//@ func VerifyRegisterNodeArgs
+//@   props C17
+//@   loop 2 invariant len(subKeys) == 4 && mapLen(subKeyDedup) <= idx()
+//@   loop 2 invariant forall j int :: 0 <= j && j < idx() ==> KeyHolder(nodeLookup, ctx, subKeys[j].id) == nil || KeyHolder(nodeLookup, ctx, subKeys[j].id).ID == n.ID
+//@   ensures-local err == nil ==> defined(subKeys) && len(subKeys) == 4 && (forall j int :: 0 <= j && j < 4 ==> KeyHolder(nodeLookup, ctx, subKeys[j].id) == nil || KeyHolder(nodeLookup, ctx, subKeys[j].id).ID == n.ID)
+//@   ensures-local err == nil ==> subKeys[0].id == n.Consensus.ID && subKeys[1].id == n.P2P.ID && subKeys[2].id == n.TLS.PubKey && subKeys[3].id == n.VRF.ID
+//@   note a node descriptor is accepted only if each of its four sub-keys is held by no registered node or by the node with the same ID (whatever that node's expiration or status); the lookup is the registry's NodeBySubKey (noeffect.txt pure:nodeBySubKey)
